@@ -691,6 +691,14 @@ func runCase(t *testing.T, c *Case) (hist []string, viol []vh.Violation, tags ta
 				}
 			}
 			for k, st := range cur {
+				switch {
+				case st.ends == now:
+					tags["get-at-exact-end-listed"]++
+				case st.ends != 0 && st.ends < now:
+					tags["get-hides-ended-alert"]++
+				case st.ends == 0:
+					tags["get-zero-end-listed"]++
+				}
 				if (st.ends == 0 || st.ends >= now) && !seen[k] {
 					violate("get-not-exact", fmt.Sprintf("after %s: stored alert %s with end %d >= now %d is missing from GET", after, k, st.ends, now))
 				}
